@@ -142,6 +142,13 @@ Theorem C11_spectrum_py_symmetrize_entry :
   forall N (D : list (list R)) a b, sq N D -> (a < N)%nat -> (b < N)%nat ->
     mget OpsR (SFS2_symmetrize OpsR N D) a b = ((mget OpsR D a b + mget OpsR D b a) / 2)%R.
 Proof. exact symmetrize_entry. Qed.
+Theorem C11_spectrum_py_fold_of_covariance_matrix_is_covariance_of_folded_rewards :
+  forall (V : Type) (add : V -> V -> V) (cov : V -> V -> R),
+    (forall x y z, cov (add x y) z = (cov x z + cov y z)%R) -> (forall x y z, cov z (add x y) = (cov z x + cov z y)%R) ->
+  forall (e : nat -> V) (N a b : nat), (a < N - SFS2_w N)%nat -> (b < N - SFS2_w N)%nat ->
+    mget OpsR (SFS2_fold OpsR N (cov_matrix V cov e N)) a b = cov (add (e a) (e (N - 1 - a)%nat)) (add (e b) (e (N - 1 - b)%nat)).
+Proof. intros V add cov Hl Hr e N a b. apply fold_of_covariance_matrix_is_covariance_of_folded_rewards; assumption. Qed.
+Print Assumptions C11_spectrum_py_fold_of_covariance_matrix_is_covariance_of_folded_rewards.
 Print Assumptions C11_spectrum_py_fold_entry.
 Print Assumptions C11_spectrum_py_fold_of_outer_product_and_sum.
 Print Assumptions C11_spectrum_py_fold_shape.
